@@ -217,3 +217,47 @@ func HarnessNoRenewalWithoutActivity() {
 	verif.Quiesce()
 	verif.Reach("no-renewal-done")
 }
+
+// HarnessBriefStall: a healthy peer that does not drain its socket for a while
+// (back-pressure, far shorter than the timeout) and then carries on. Whatever
+// keep-alive traffic happened before and during the stall, a call issued during
+// it completes with its result once the peer reads again: keep-alive must not
+// poison ordinary writes.
+func HarnessBriefStall() {
+	l := verif.ListenWS()
+	resume := make(chan struct{})
+	go func() {
+		verif.Daemon()
+		pc := l.Accept()
+		<-resume
+		for {
+			b, ok := pc.Recv()
+			if !ok {
+				return
+			}
+			var r wireReq
+			if json.Unmarshal(b, &r) != nil || r.ID == nil {
+				continue
+			}
+			rb, _ := json.Marshal(map[string]interface{}{"jsonrpc": "2.0", "id": r.ID, "result": r.Params[0]})
+			pc.Send(rb)
+		}
+	}()
+	var c C
+	closer, err := jsonrpc.NewMergeClient(context.Background(), l.URL(), "NS", []interface{}{&c}, nil,
+		jsonrpc.WithTimeout(20*time.Second), jsonrpc.WithPingInterval(100*time.Millisecond), jsonrpc.WithNoReconnect())
+	verif.Assert(err == nil, "client-created")
+	verif.Quiesce() // keep-alive traffic may happen here
+	ret := 0
+	var v int64
+	var cerr error
+	go func() { v, cerr = c.Echo(context.Background(), 7); ret++ }()
+	verif.Quiesce() // the request may be stuck behind unread frames
+	close(resume)
+	verif.Quiesce()
+	verif.Assert(ret == 1, "call-issued-during-a-brief-stall-returns")
+	verif.Assert(cerr == nil && v == 7, "call-issued-during-a-brief-stall-gets-its-result")
+	closer()
+	verif.Quiesce()
+	verif.Reach("brief-stall-done")
+}
